@@ -334,7 +334,10 @@ def b_all(eng, st, args, kwargs, node):
     r = _static_quantifier(eng, st, args[0], False) if args else None
     if r is not None:
         return r
-    raise Unsupported("all()")
+    # not expandable: the weakest contract (what an unknown callee gets)
+    from .calls import opaque_call
+
+    return opaque_call(eng, st, "global:all", args, kwargs)
 
 
 def b_frozenset(eng, st, args, kwargs, node):
